@@ -111,6 +111,15 @@ def gen_cases(ctx):
         for op in ("drop_na", "unique"):
             cases.append({"op": op, "cols": ["a"], "frame": spec, "warm": True})
             cases.append({"op": op, "cols": ["a", "b"], "frame": spec, "warm": True})
+    # column=value with a number of ANOTHER type than the column's (a float for an integer column, an integer for a Boolean
+    # or a float one): the three forms stay interchangeable — the rows of the mask `column == value`
+    raw_specs = [("int", [1, 2, 3, 2, 0], [2.5, 2.0, 0.5, True, 3.0, -0.0]), ("bool", [True, False, True, False], [2, 1, 0.0, 0.5, 1.0]),
+                 ("float", [1.0, 2.5, 2.0, 0.0, "-0.0"], [2, 1, 0, True, 3])]
+    for kind, vals, probes in raw_specs:
+        spec = {"n": len(vals), "cols": [{"name": "a", "kind": kind, "vals": vals}, {"name": "b", "kind": "int", "vals": list(range(len(vals)))}]}
+        for v in probes:
+            for op in ("filter_kv", "filter_out_kv"):
+                cases.append({"op": op, "conds": [["a", v]], "raw": True, "frame": spec})
     n = 900 if ctx.tier == "quick" else 25000
     for _ in range(n):
         cases.append(gen_case(rng, ctx.tier))
@@ -153,7 +162,8 @@ def impl(case):
             kv = {}
             for nm, v in case["conds"]:
                 c = framegen.col(spec, nm)
-                kv[nm] = vecgen.make_array(c["kind"], [v])[0]
+                # ("raw": the value as the caller wrote it, a Python number of ANOTHER type than the column's)
+                kv[nm] = v if case.get("raw") else vecgen.make_array(c["kind"], [v])[0]
             out = df.filter(**kv) if op == "filter_kv" else df.filter_out(**kv)
         elif op in ("slice", "slice_off"):
             how = case.get("rows_as", "list")
@@ -208,6 +218,8 @@ def model_requests(case, obs):
         return [("filter", {"mask": case["mask"]})]
     if op in ("filter_out_mask", "filter_out_callable"):
         return [("filter_out", {"mask": case["mask"]})]
+    if op in ("filter_kv", "filter_out_kv") and case.get("raw"):
+        return []
     if op in ("filter_kv", "filter_out_kv"):
         conds = []
         for nm, v in case["conds"]:
@@ -249,6 +261,13 @@ def expected(case, obs):
             for nm, v in case["conds"]:
                 c = framegen.col(spec, nm)
                 a, b = c["vals"][i], v
+                if case.get("raw"):
+                    # column=value is the mask `column == value`: a number of another type selects the rows whose cell is
+                    # numerically equal to it (2.5 equals no integer, 2 no boolean), never the rows it would be cast onto
+                    if vecgen.is_na_val(c["kind"], a):
+                        return None
+                    ok = ok and (vecgen.pyval(c["kind"], a) == v)
+                    continue
                 if vecgen.is_na_val(c["kind"], a) or vecgen.is_na_val(c["kind"], b):
                     # equality with a missing value is left unspecified by the property
                     # (NumPy: NaN != NaN, "" == ""): accept the implementation's own mask
@@ -335,7 +354,7 @@ def judge(ctx, case, obs, mouts):
                 ctx.violation("oracle", f"{base}:wrong-rows", f"{op} kept rows {rids}, the property requires {exp}", case, obs, exp)
             if not all(obs["dtypes_same"]):
                 ctx.violation("oracle", f"{base}:dtype-changed", "a column changed dtype", case, obs)
-    if mouts is not None:
+    if mouts:
         m = mouts[0]
         if isinstance(m, dict) and "err" in m:
             ctx.violation("correspondence", f"{op}:model-error", f"model rejected the request: {m['err']}", case, obs, m)
